@@ -380,4 +380,19 @@ def firstBad2 (code : Array Shape) : Option Nat :=
   if !certOK code C then some 0 else
   (List.range code.size).find? fun pc => !verifyAt2 code C pc
 
+/-! ## the checker: both layers -/
+
+/-- the checker, for a program compiled with `nvars` variables (`WithVariables`): layer 1 (heights,
+    pending forks, open `pathbegin`s — Model/SafeVM.lean) and layer 2 (frames, closures, kinds) -/
+def safeCheckN (nvars : Nat) (c : Array Instr) : Bool :=
+  checkShapes (c.map shape) nvars && checkShapes2 (c.map shape)
+
+/-- the checker for a program compiled without variables -/
+def safeCheck (c : Array Instr) : Bool := safeCheckN 0 c
+
+/-- the checker on a dumped instruction list (what the `safe` stream of the C04 check runs) -/
+def safeCheckViewN (nvars : Nat) (c : Array Opt.Instr) : Bool :=
+  checkShapes (c.map shapeV) nvars && checkShapes2 (c.map shapeV)
+def safeCheckView (c : Array Opt.Instr) : Bool := safeCheckViewN 0 c
+
 end Gojq.SafeVM
